@@ -287,7 +287,8 @@ def c15(ctx, rep):
                 a, b = decisions[i], decisions[j]
                 if a[0] == b[0]:
                     continue
-                diff = [k for k in set(a[1]) | set(b[1]) if a[1].get(k, (None,))[0] != b[1].get(k, (None,))[0]]
+                # decisions taken on both paths that differ (a decision missing on one path — early return — is a wildcard)
+                diff = [k for k in set(a[1]) & set(b[1]) if a[1][k][0] != b[1][k][0]]
                 if len(diff) == 1:
                     k = diff[0]
                     relevant |= set((a[1].get(k) or b[1].get(k))[1])
@@ -329,6 +330,9 @@ def c15(ctx, rep):
                         roots.add("self." + s[2])
             extra = roots - allowed_roots[c.name]
             rep.ob("C15.feature-local-arguments", c.name, not extra, "%s constructor arguments depend on %s; allowed: salt and %s" % (c.name, sorted(roots), sorted(allowed_roots[c.name])), cs.where, key="C15.feature-local-arguments|%s" % c.name)
+    from .checks_misc import argument_mutation_rule
+    ctors = [c.find_method("__init__") for c in [p.find_class(n) for n in allowed_roots] + [p.find_class("FileAnonymizer")]]
+    argument_mutation_rule(ctx, rep, "C15", [f for f in ctors if f is not None])
     rep.ob("C15.stage-constructors", "FileAnonymizer.__init__", seen_cls == set(allowed_roots), "stage constructors found: %s" % sorted(seen_cls), W(f_fa), nontrivial=False)
     # salt field: parameter, random only when None
     from .checks_ip import _salt_defaulting
